@@ -32,7 +32,9 @@ CLAIM = dict(
           "list, the bucket/key/FoldFixed clauses are established for compiled tables in C12 (compile_consistent). The equality "
           "of the whole engine with the reference is established by differential testing, not by a theorem. capsletter is outside "
           "the modelled fragment of this revision (the engine model answers UNSUPPORTED); `base` case folding is modelled in "
-          "the engine but not in the compile model."),
+          "the engine but not in the compile model."
+          " Capital indicators are outside the modelled fragment; for them the check has one literal clause: with `capsletter` as the only "
+          "capital indicator every upper-case letter of the consumed text gets exactly one sign, also inside the match of a word-position rule."),
     technique="Lean 4 proof (compile invariant, sorted chains) + compile-model/DUMP and engine-model/H4 correspondences + independent reference oracle",
     design="DESIGN.md §7 C05")
 
